@@ -231,8 +231,14 @@ KF_KindBound(s) ==
   \E x \in DOMAIN s.imports \cup DOMAIN s.exports : x \in DOMAIN NameInfo /\ NameInfo[x].cls = "kindbound"
 \* a definition of a world (or interface) type that has no id of its own: the world of a registered package
 KF_UnnamedDef(s) == \E t \in DOMAIN s.defined : DefClass[t] = "world"
+\* a function whose signature mentions a type exported by the instance it comes from ("G"), imported
+\* explicitly or exported on its own: the type it mentions is not in scope where the function is declared
+ScopedFunc(k) == k.c = "func" /\ k.sig = "G"
+KF_ScopedType(s) ==
+  \E n \in ILive(s) : ScopedFunc(s.nodes[n].item) /\ (s.nodes[n].k = "imp" \/ \E x \in DOMAIN s.exports : s.exports[x] = n)
 KnownFindings(s) ==
   (IF KF_UnnamedDef(s) THEN {"unnamed-world-definition"} ELSE {})
+  \cup (IF KF_ScopedType(s) THEN {"function-over-instance-type"} ELSE {})
   \cup (IF KF_UndefDep(s) THEN {"undefined-dependency"} ELSE {})
   \cup (IF KF_DefRename(s) THEN {"definition-renamed"} ELSE {})
   \cup (IF KF_KindBound(s) THEN {"kind-bound-name"} ELSE {})
